@@ -922,6 +922,28 @@ pub fn run(t: &[&str]) -> String {
                         return "err setter-then-encode-differs".into();
                     }
                 }
+                // what is written always describes the tokens the map holds *now*: written once, then changed by
+                // `adjust_mappings` (every line moved down by one), then written again and read back
+                let mut sm = sm0.clone();
+                let _ = encode(&DecodedMap::Regular(sm.clone()));
+                let first = sourcemap::DecodedMap::Regular(sm.clone());
+                let _ = encode(&first);
+                let shift = sourcemap::SourceMap::new(None, vec![sourcemap::RawToken { dst_line: 1, dst_col: 0, src_line: 0, src_col: 0, src_id: 0, name_id: !0, is_range: false }], vec![], vec!["s".into()], None);
+                let mut out = vec![];
+                // (inside the domain where `adjust_mappings` is defined: its i32 displacement arithmetic panics on
+                // coordinates of 2^31 and more - C10 - which is not this check's subject)
+                if sm.to_writer(&mut out).is_ok() && sm.tokens().all(|t| t.get_dst_line() < (1 << 30) && t.get_dst_col() < (1 << 30)) {
+                    sm.adjust_mappings(&shift);
+                    let dm = DecodedMap::Regular(sm);
+                    let before = obs(&dm);
+                    let after = match encode(&dm).ok().and_then(|b| decode_slice(&b).ok()) {
+                        Some(d) => obs(&d),
+                        None => "unreadable".into(),
+                    };
+                    if before != after {
+                        return "err adjusted-then-encode-differs".into();
+                    }
+                }
             }
             match serde_json::from_slice::<OV>(&b1) {
                 Ok(v) => format!("ok {}", enc_view(&v)),
